@@ -181,6 +181,25 @@ CHECKS = {
             'in the loader class.',
             'table / sibling-implementation agreement + YANG schema cross-check + def-use on loader paths',
             'DESIGN.md 4 C18'),
+    'C19': ('other',
+            'Table agreement between what the planner computed and what the response/CSV state: the 11 metric entries '
+            '(constant, receiver attribute of the last element of the given path, aggregate, rounding), direction of the '
+            'two metric blocks, the blocking-reason dispatch with labels exactly for unblocked requests and transponder '
+            'type/mode from the request, reader/writer agreement of metric strings and column alignment in jsontocsv, the '
+            'pass flag (>= required OSNR incl. margin), aggregation bookkeeping, and per-request ownership of the reported '
+            'element objects (deep copies).',
+            'That the request object holds the selected mode is C13\'s flow and not re-decided here.',
+            'table / reader-writer agreement over dict literals and column tuples + def-use of reported objects',
+            'DESIGN.md 4 C19'),
+    'C20': ('other',
+            'Table and sibling agreement over the spreadsheet converters: four header tables against the row classes with '
+            'east/west twins; the east and west element builders compared as ASTs under east<->west renaming and reading '
+            'only their own side; empty-cell filter (0 is a value) and the west-defaults rule per row class; unit '
+            'conversions, naming and synchronisation vectors of service rows; every collected error list reaches a '
+            'NetworkTopologyError; an empty row is skipped, it does not end the sheet.',
+            'Wiring for arbitrary degree mixes and name correction against the converted topology are not decided.',
+            'AST mirror comparison of sibling functions + table agreement + row-loop structure',
+            'DESIGN.md 4 C20'),
 }
 
 NOT_APPLICABLE = {}
